@@ -279,7 +279,13 @@ class ResetAttrMethod(AttrMethodDescriptor):
         if not _inplace:
             self = protect_via_deepcopy(self, for_mutation=True)
         with thawed(self, enable=not _inplace):
-            delattr(self, attr_spec.name)
+            try:
+                delattr(self, attr_spec.name)
+            except AttributeError:
+                # Already unset (and no default to restore): nothing to reset,
+                # as for the top-level `reset()`.
+                if attr_spec.name in getattr(self, "__dict__", {}):
+                    raise
         return self
 
     def build_method(self) -> Callable:
